@@ -5,12 +5,33 @@ import Hls.Model.Line
 namespace Hls
 
 theorem classify1_ext (s : Str) (h : startsWith s "#EXT".toList = true) : classify1 s = dispatch s := by
-  simp [classify1, h]
+  unfold classify1; rw [if_pos h]
 
-theorem dispatch_version (r : Str) : dispatch (pfxVersion ++ r) = (ExtXVersion.parse (pfxVersion ++ r)).map .version := by
-  simp [dispatch, Generated.dispatchOrder, dispatchIn, armMatches, startsWith, pfxVersion, List.isPrefixOf, tagParser, tagParsers, lookupParser]
+theorem dispatchIn_skip (k p : String) (ex : Bool) (rest : List (String × String × Bool)) (s : Str)
+    (h : armMatches ex p s = false) : dispatchIn ((k, p, ex) :: rest) s = dispatchIn rest s := by
+  simp [dispatchIn, h]
 
-theorem dispatch_map (r : Str) : dispatch (pfxMap ++ r) = (ExtXMap.parse (pfxMap ++ r)).map .map := by
-  simp [dispatch, Generated.dispatchOrder, dispatchIn, armMatches, startsWith, pfxMap, List.isPrefixOf, tagParser, tagParsers, lookupParser]
+theorem dispatchIn_hit (k p : String) (ex : Bool) (rest : List (String × String × Bool)) (s : Str)
+    (h : armMatches ex p s = true) : dispatchIn ((k, p, ex) :: rest) s = tagParser k s := by
+  simp [dispatchIn, h]
+
+/-- walk down the generated table: skip the arms that do not match, stop at the one that does -/
+syntax "dispatch_walk" : tactic
+macro_rules
+  | `(tactic| dispatch_walk) => `(tactic|
+      (unfold dispatch Generated.dispatchOrder
+       repeat (first
+         | rw [dispatchIn_hit _ _ _ _ _ (by simp [armMatches, startsWith, List.isPrefixOf])]
+         | rw [dispatchIn_skip _ _ _ _ _ (by simp [armMatches, startsWith, List.isPrefixOf])])))
+
+theorem dispatch_version (r : Str) : dispatch (pfxVersion ++ r) = tagParser "ExtXVersion" (pfxVersion ++ r) := by
+  unfold pfxVersion; dispatch_walk
+theorem dispatch_map (r : Str) : dispatch (pfxMap ++ r) = tagParser "ExtXMap" (pfxMap ++ r) := by
+  unfold pfxMap; dispatch_walk
+theorem dispatch_start (r : Str) : dispatch (pfxStart ++ r) = tagParser "ExtXStart" (pfxStart ++ r) := by
+  unfold pfxStart; dispatch_walk
+
+theorem tagParser_map (s : Str) : tagParser "ExtXMap" s = (ExtXMap.parse s).map .map := by
+  simp [tagParser, tagParsers, lookupParser]
 
 end Hls
